@@ -57,7 +57,7 @@ func CheckTestOnly(
 			continue // Test files can use @testonly items
 		}
 
-		// Track reported type violations per file to avoid spam
+		// Track reported type violations per file (keyed by package path and type name) to avoid spam
 		// NOTE: We check ignoreSet BEFORE adding to reportedTypes to ensure that
 		// ignored violations don't prevent subsequent non-ignored violations of the
 		// same type from being detected. See case statements below for implementation.
@@ -86,9 +86,9 @@ func CheckTestOnly(
 				if v := findTypeLiteralViolation(&context, node); v != nil {
 					// Check if this violation should be ignored before marking type as reported
 					if !ignoreSet.Contains(v.Code, v.Pos) {
-						if !reportedTypes[v.TestOnlyObj] {
+						if !reportedTypes[v.ObjPkgPath+"."+v.TestOnlyObj] {
 							violations = append(violations, *v)
-							reportedTypes[v.TestOnlyObj] = true
+							reportedTypes[v.ObjPkgPath+"."+v.TestOnlyObj] = true
 						}
 					}
 				}
@@ -98,9 +98,9 @@ func CheckTestOnly(
 				if v := findTypeUsageViolation(&context, node.Type, node.Pos()); v != nil {
 					// Check if this violation should be ignored before marking type as reported
 					if !ignoreSet.Contains(v.Code, v.Pos) {
-						if !reportedTypes[v.TestOnlyObj] {
+						if !reportedTypes[v.ObjPkgPath+"."+v.TestOnlyObj] {
 							violations = append(violations, *v)
-							reportedTypes[v.TestOnlyObj] = true
+							reportedTypes[v.ObjPkgPath+"."+v.TestOnlyObj] = true
 						}
 					}
 				}
@@ -110,9 +110,9 @@ func CheckTestOnly(
 				if v := findTypeUsageViolation(&context, node.Type, node.Pos()); v != nil {
 					// Check if this violation should be ignored before marking type as reported
 					if !ignoreSet.Contains(v.Code, v.Pos) {
-						if !reportedTypes[v.TestOnlyObj] {
+						if !reportedTypes[v.ObjPkgPath+"."+v.TestOnlyObj] {
 							violations = append(violations, *v)
-							reportedTypes[v.TestOnlyObj] = true
+							reportedTypes[v.ObjPkgPath+"."+v.TestOnlyObj] = true
 						}
 					}
 				}
@@ -244,6 +244,7 @@ func findTypeLiteralViolation(
 		return &TestOnlyViolation{
 			Pos:         node.Pos(),
 			TestOnlyObj: typeInfo.TypeName,
+			ObjPkgPath:  typeInfo.PkgPath,
 			Kind:        annotations.TestOnlyOnType,
 			UsedInFile:  *ctx.fileName,
 			Reason:      fmt.Sprintf("type %s is marked @testonly and can only be used in test files", typeInfo.TypeName),
@@ -273,6 +274,7 @@ func findTypeUsageViolation(
 		return &TestOnlyViolation{
 			Pos:         pos,
 			TestOnlyObj: typeInfo.TypeName,
+			ObjPkgPath:  typeInfo.PkgPath,
 			Kind:        annotations.TestOnlyOnType,
 			UsedInFile:  *ctx.fileName,
 			Reason:      fmt.Sprintf("type %s is marked @testonly and can only be used in test files", typeInfo.TypeName),
